@@ -96,6 +96,21 @@ def run(res):
     for o in av:
         if o.startswith("ok "):
             cases.append(("av1", C.unhexs(o[3:]), "valid av1"))
+    # invalid buffers through EVERY entry point (the error state is per entry point): mutated / truncated AV1
+    # payloads, an HEVC NAL or a raw RPU handed to the AV1 function, mutated NALs
+    for c in [c for c in cases if c[0] == "av1"][:25]:
+        w = bytearray(c[1])
+        for _ in range(2):
+            w2 = bytearray(w)
+            w2[r.randrange(len(w2))] ^= 1 << r.randrange(8)
+            cases.append(("av1", bytes(w2), "mutated av1"))
+        cases.append(("av1", bytes(w[: r.randrange(1, len(w))]), "truncated av1"))
+    for c in [c for c in cases if c[2] == "valid"][:10]:
+        cases.append(("av1", c[1], "%s buffer given to the AV1 entry point" % c[0]))
+    for t, raw, m in trees[: nvalid // 4]:
+        x = raw.rstrip(b"\x00")
+        if x[:3] == bytes([0x19, 8, 9]):
+            cases.append(("nal", b"\x7c\x01" + R.escape(RC.mutate(r, x, repair=r.random() < 0.5)), "mutated nal"))
     # invalid buffers: mutations of valid ones and corpus witnesses
     for t, raw, m in trees[: nvalid // 2]:
         cases.append(("rpu", RC.SC4 + RC.mutate(r, raw.rstrip(b"\x00"), repair=r.random() < 0.7), "mutated"))
